@@ -1,6 +1,6 @@
 (* C20 - The TT linear layer computes the dense affine map it represents. *)
-From Coq Require Import List Arith.
-From TT Require Import RingSig Instances Dual SumN Mat Dense Core Arith MatOps CoreP ArithP MatOpsP ReduceDimsP FrameP DualP CoreGradP.
+From Coq Require Import List Arith Bool.
+From TT Require Import RingSig Instances Dual SumN Mat Dense Core Arith MatOps Reduce Struct Index Meta Expr CoreP ArithP MatOpsP ReduceDimsP FrameP DualP CoreGradP GuardsP.
 Import ListNotations.
 
 Section C20.
@@ -15,6 +15,12 @@ Theorem C20_forward_affine (W : ttm R) (bias X : dense R) b ms :
   dget (forward W bias X) (b ++ ms) =
     sum_idx (shapeN W) (fun ns => entry4 W ms ns * dget X (b ++ ns)) + dget bias ms.
 Proof. exact (forward_affine W bias X b ms). Qed.
+
+(* the CALL: when the trailing dimensions of the input are size_in the guarded entry point is this forward map (and otherwise it refuses: C18_forward_rejects) *)
+Theorem C20_forward_call (W : ttm R) (bias X : dense R) ia :
+  (length W <=? length (dshape X))%nat && eqb_ln (shapeN W) (skipn (length (dshape X) - length W) (dshape X)) = true ->
+  apply_op OForward [VM W; VD bias; VD X] ia = VD (forward W bias X).
+Proof. exact (forward_accepts W bias X ia). Qed.
 
 (* the loop invariant behind it: after the cores consumed so far the running tensor is the partial
    contraction (dmv_loop_spec), for any starting tensor v *)
@@ -41,6 +47,7 @@ Proof. exact (entry4_core_grad k W ms ns c). Qed.
 
 End C20.
 Print Assumptions C20_forward_affine.
+Print Assumptions C20_forward_call.
 Print Assumptions C20_loop_spec.
 Print Assumptions C20_forward_grad.
 Print Assumptions C20_operator_core_grad.
